@@ -65,6 +65,7 @@ type parser_ struct {
 	source_ string                   // The original source code.
 	tokens_ col.QueueLike[TokenLike] // A queue of unread tokens from the scanner.
 	next_   col.StackLike[TokenLike] // A stack of read, but unprocessed tokens.
+	eof_    bool                     // Whether the scanner has delivered its last token.
 }
 
 // Attributes
@@ -84,6 +85,8 @@ func (v *parser_) ParseSource(source string) (collection any) {
 	v.next_ = col.Stack[TokenLike](notation).MakeWithCapacity(parserClass.stackSize_)
 
 	// The scanner runs in a separate Go routine.
+	v.eof_ = false
+	defer v.drainTokens() // Lets the scanner finish even when the parse fails.
 	Scanner().Make(v.source_, v.tokens_)
 
 	// Attempt to parse a collection.
@@ -120,6 +123,15 @@ func (v *parser_) ParseSource(source string) (collection any) {
 }
 
 // Private
+
+func (v *parser_) drainTokens() {
+	for !v.eof_ {
+		var token, ok = v.tokens_.RemoveHead() // The scanner always ends with EOF.
+		if !ok || token.GetType() == EOFToken {
+			v.eof_ = true
+		}
+	}
+}
 
 func (v *parser_) formatError(token TokenLike) string {
 	// Format the error message.
@@ -177,6 +189,9 @@ func (v *parser_) getNextToken() TokenLike {
 	var token, ok = v.tokens_.RemoveHead() // This will wait for a token.
 	if !ok {
 		panic("The token channel terminated without an EOF token.")
+	}
+	if token.GetType() == EOFToken {
+		v.eof_ = true
 	}
 
 	// Check for an error token.
